@@ -385,8 +385,10 @@ class RF24Mesh(RF24MeshNoMaster):
 
                 self.frame_buf.header.message_type = MESH_ADDR_RESPONSE
                 self.frame_buf.header.to_node = self.frame_buf.header.from_node
+                # the master is the origin (the NETWORK_ACK must come back here)
+                self.frame_buf.header.from_node = self._addr
                 self.frame_buf.message = struct.pack("<H", new_addr)
-                if self.frame_buf.header.from_node != NETWORK_DEFAULT_ADDR:
+                if self.frame_buf.header.to_node != NETWORK_DEFAULT_ADDR:
                     # frame_buf is re-used for incoming frames while waiting for a NETWORK_ACK
                     response = self.frame_buf.pack()
                     if not self._write(self.frame_buf.header.to_node, TX_NORMAL):
